@@ -53,7 +53,15 @@ impl Iterator for FlatIt {
 
 impl<'a> Cl<'a> {
     pub fn any(log: &'a Log) -> Cl<'a> {
-        let c = Cl { log, mt: kani::any(), ft: kani::any(), ot: kani::any(), lt: kani::any(), pt: kani::any() };
+        // element-wise: `kani::any::<[T; 4]>()` contains a 4-iteration loop that would dictate the unwind bound
+        let c = Cl {
+            log,
+            mt: [kani::any(), kani::any(), kani::any(), kani::any()],
+            ft: [kani::any(), kani::any(), kani::any(), kani::any()],
+            ot: [kani::any(), kani::any(), kani::any(), kani::any()],
+            lt: [kani::any(), kani::any(), kani::any(), kani::any()],
+            pt: [kani::any(), kani::any(), kani::any(), kani::any()],
+        };
         kani::assume(c.lt[0] <= 2 && c.lt[1] <= 2 && c.lt[2] <= 2 && c.lt[3] <= 2);
         c
     }
@@ -202,4 +210,108 @@ pub fn red<'a>(log: &'a Log, op: Op) -> impl Fn(E, E) -> E + Clone + Send + Sync
         log.call(ST_P, a.p);
         E { p: a.p, v: apply(op, a.v, b.v) }
     }
+}
+
+// ------------------------------------------------------------------------------------------
+// second-stage closures for longer chains and the source as a std iterator
+
+impl<'a> Cl<'a> {
+    pub fn with_log<'b>(&self, log: &'b Log) -> Cl<'b> {
+        Cl { log, mt: self.mt, ft: self.ft, ot: self.ot, lt: self.lt, pt: self.pt }
+    }
+    pub fn o_map2(&self, v: u8) -> u8 {
+        self.mt[((v >> 2) % 4) as usize]
+    }
+    pub fn o_fil2(&self, y: u8) -> bool {
+        self.pt[((y >> 2) % 4) as usize]
+    }
+    pub fn map2(self) -> impl Fn(E) -> E + Clone + Send + Sync + 'a {
+        move |e: E| {
+            self.log.call(ST_X, e.p);
+            E { p: e.p, v: self.o_map2(e.v) }
+        }
+    }
+    pub fn fil2(self) -> impl Fn(&E) -> bool + Clone + Send + Sync + 'a {
+        move |y: &E| {
+            self.log.call(ST_X, y.p);
+            self.o_fil2(y.v)
+        }
+    }
+    /// for_each body
+    pub fn each(self) -> impl Fn(E) + Clone + Send + Sync + 'a {
+        move |e: E| {
+            self.log.call(ST_P, e.p);
+        }
+    }
+}
+
+/// the source as a std iterator (the sequential oracle starts from this)
+pub fn src_iter(data: [u8; MAXN], n: usize) -> impl Iterator<Item = E> {
+    (0..n).map(move |i| E { p: i as u8, v: data[i] })
+}
+
+/// full sequential output of the two-stage pipeline `kind` over the first n elements
+pub fn seq_outputs(cl: &Cl, kind: Kind, data: [u8; MAXN], n: usize) -> ([E; 8], usize) {
+    let mut out = [E { p: 0, v: 0 }; 8];
+    let mut m = 0;
+    let mut i = 0;
+    while i < n {
+        let (o, cnt) = cl.expand(kind, i as u8, data[i]);
+        let mut q = 0;
+        while q < cnt {
+            out[m] = o[q];
+            m += 1;
+            q += 1;
+        }
+        i += 1;
+    }
+    (out, m)
+}
+
+pub fn same_stage(a: &Log, b: &Log, s: usize) -> bool {
+    a.calls(s, 0) == b.calls(s, 0) && a.calls(s, 1) == b.calls(s, 1) && a.calls(s, 2) == b.calls(s, 2) && a.calls(s, 3) == b.calls(s, 3)
+}
+
+/// same call counts for every (stage, position)
+pub fn same_call_multiset(a: &Log, b: &Log) -> bool {
+    same_stage(a, b, 0) && same_stage(a, b, 1) && same_stage(a, b, 2) && same_stage(a, b, 3)
+}
+
+fn le_stage(a: &Log, b: &Log, s: usize) -> bool {
+    a.calls(s, 0) <= b.calls(s, 0) && a.calls(s, 1) <= b.calls(s, 1) && a.calls(s, 2) <= b.calls(s, 2) && a.calls(s, 3) <= b.calls(s, 3)
+}
+
+/// no closure called more often than in the complete sequential evaluation `full`
+pub fn calls_at_most(a: &Log, full: &Log) -> bool {
+    le_stage(a, full, 0) && le_stage(a, full, 1) && le_stage(a, full, 2) && le_stage(a, full, 3)
+}
+
+/// identical call sequences (sequential mode); written without a loop (at most 12 calls)
+pub fn same_call_sequence(a: &Log, b: &Log) -> bool {
+    let n = a.seq_len();
+    if n != b.seq_len() || n > 12 {
+        return false;
+    }
+    macro_rules! at {
+        ($i:expr) => {
+            ($i >= n || a.seq_at($i) == b.seq_at($i))
+        };
+    }
+    at!(0) && at!(1) && at!(2) && at!(3) && at!(4) && at!(5) && at!(6) && at!(7) && at!(8) && at!(9) && at!(10) && at!(11)
+}
+
+pub fn any_params() -> crate::Params {
+    use crate::{ChunkSize, NumThreads, Params};
+    use std::num::NonZeroUsize;
+    let a: usize = kani::any();
+    let b: usize = kani::any();
+    let num_threads = if a == 0 { NumThreads::Auto } else { NumThreads::Max(NonZeroUsize::new(a).unwrap()) };
+    let chunk_size = if b == 0 {
+        ChunkSize::Auto
+    } else if kani::any() {
+        ChunkSize::Exact(NonZeroUsize::new(b).unwrap())
+    } else {
+        ChunkSize::Min(NonZeroUsize::new(b).unwrap())
+    };
+    Params { num_threads, chunk_size }
 }
